@@ -4,6 +4,7 @@ import (
 	"go/ast"
 	"go/token"
 	"go/types"
+	"sort"
 	"strings"
 )
 
@@ -83,6 +84,7 @@ func FindOrderSites(info *types.Info, body *ast.BlockStmt) []OrderSite {
 func classifyRange(info *types.Info, fnBody *ast.BlockStmt, rs *ast.RangeStmt) (class, reason string) {
 	keyObj := ObjOf(info, rs.Key)
 	var appended []types.Object // slices appended to
+	appendedExpr := map[types.Object]ast.Expr{}
 	onlyMapStores, onlyAppends, onlyFold, onlyErr := true, true, true, true
 	nStmts := 0
 	var walk func(stmts []ast.Stmt) bool
@@ -126,6 +128,9 @@ func classifyRange(info *types.Info, fnBody *ast.BlockStmt, rs *ast.RangeStmt) (
 						}
 						if i < len(x.Rhs) && isAppendTo(info, x.Rhs[i], o) {
 							appended = append(appended, o)
+							if call, ok := x.Rhs[i].(*ast.CallExpr); ok && len(call.Args) == 2 {
+								appendedExpr[o] = call.Args[1]
+							}
 							onlyMapStores, onlyFold, onlyErr = false, false, false
 							continue
 						}
@@ -238,8 +243,11 @@ func classifyRange(info *types.Info, fnBody *ast.BlockStmt, rs *ast.RangeStmt) (
 			if !sortedAfter(info, fnBody, rs, o) {
 				return "", ""
 			}
+			if why := sortKeyUnique(info, fnBody, rs, o, appendedExpr[o]); why != "" {
+				return "", "collected elements are sorted, but " + why
+			}
 		}
-		return "collect-then-sort", "body only appends to slice(s) that are sorted right after the loop"
+		return "collect-then-sort", "body only appends to slice(s) that are sorted right after the loop by a key that is unique per map entry"
 	}
 	// mixtures of insensitive effects (map stores + folds + error returns) are still insensitive
 	if len(appended) == 0 {
@@ -248,6 +256,9 @@ func classifyRange(info *types.Info, fnBody *ast.BlockStmt, rs *ast.RangeStmt) (
 	for _, o := range appended {
 		if !sortedAfter(info, fnBody, rs, o) {
 			return "", ""
+		}
+		if why := sortKeyUnique(info, fnBody, rs, o, appendedExpr[o]); why != "" {
+			return "", "collected elements are sorted, but " + why
 		}
 	}
 	return "mixed-insensitive+sort", "appends are sorted after the loop; other effects are order-insensitive"
@@ -403,4 +414,208 @@ func isWhole(info *types.Info, e ast.Expr, o types.Object) bool {
 		return isWhole(info, call.Args[0], o)
 	}
 	return false
+}
+
+// accessors lists the method / field names applied (transitively) to identifiers for which isBase holds.
+func accessors(info *types.Info, e ast.Expr, isBase func(ast.Expr) bool) map[string]bool {
+	out := map[string]bool{}
+	var walk func(x ast.Expr) bool // returns true if x is rooted at a base
+	walk = func(x ast.Expr) bool {
+		switch v := ast.Unparen(x).(type) {
+		case *ast.SelectorExpr:
+			if walk(v.X) {
+				out[v.Sel.Name] = true
+				return true
+			}
+		case *ast.CallExpr:
+			if tv, ok := info.Types[v.Fun]; ok && tv.IsType() && len(v.Args) == 1 {
+				return walk(v.Args[0]) // conversion
+			}
+			return walk(v.Fun)
+		case *ast.IndexExpr:
+			if isBase(v) {
+				return true
+			}
+			return walk(v.X)
+		case *ast.StarExpr:
+			return walk(v.X)
+		default:
+			return isBase(x)
+		}
+		return false
+	}
+	ast.Inspect(e, func(n ast.Node) bool {
+		if x, ok := n.(ast.Expr); ok {
+			walk(x)
+		}
+		return true
+	})
+	delete(out, "String")
+	return out
+}
+
+// sortKeyUnique checks that the comparison used to sort the collected slice orders by the map key (which is unique per
+// entry); otherwise equal-keyed elements keep map-iteration order. It returns "" when the sort is total, else the reason.
+func sortKeyUnique(info *types.Info, fnBody *ast.BlockStmt, rs *ast.RangeStmt, slice types.Object, elem ast.Expr) string {
+	if elem == nil {
+		return "the appended element is not a single expression"
+	}
+	keyObj := ObjOf(info, rs.Key)
+	valObj := types.Object(nil)
+	if rs.Value != nil {
+		valObj = ObjOf(info, rs.Value)
+	}
+	// locate the sort call
+	var sortCall *ast.CallExpr
+	Inspect(fnBody, false, func(n ast.Node) bool {
+		if call, ok := n.(*ast.CallExpr); ok && n.Pos() >= rs.End() && sortCall == nil {
+			if fn := Callee(info, call); fn != nil && fn.Pkg() != nil && (fn.Pkg().Path() == "sort" || fn.Pkg().Path() == "slices") && len(call.Args) > 0 && isWhole(info, call.Args[0], slice) {
+				sortCall = call
+			}
+		}
+		return true
+	})
+	if sortCall == nil {
+		return "no sort call found"
+	}
+	sortFn := Callee(info, sortCall)
+	// (A) elements are the keys themselves
+	stripConv := func(e ast.Expr) ast.Expr {
+		for {
+			c, ok := ast.Unparen(e).(*ast.CallExpr)
+			if !ok || len(c.Args) != 1 {
+				return ast.Unparen(e)
+			}
+			if tv, ok := info.Types[c.Fun]; ok && tv.IsType() {
+				e = c.Args[0]
+				continue
+			}
+			return ast.Unparen(e)
+		}
+	}
+	if keyObj != nil && ObjOf(info, stripConv(elem)) == keyObj {
+		switch sortFn.Name() {
+		case "Strings", "Ints", "Float64s", "Sort", "Stable", "Slice", "SliceStable":
+			return ""
+		}
+	}
+	// which accessor of an element carries the key?
+	var keyAcc map[string]bool
+	if cl, ok := ast.Unparen(elem).(*ast.CompositeLit); ok && keyObj != nil {
+		// (B) a record built from the entry: the field fed by the map key
+		st, _ := info.Types[cl].Type.Underlying().(*types.Struct)
+		for i, e := range cl.Elts {
+			var fname string
+			val := e
+			if kv, ok := e.(*ast.KeyValueExpr); ok {
+				fname = ExprString(kv.Key)
+				val = kv.Value
+			} else if st != nil && i < st.NumFields() {
+				fname = st.Field(i).Name()
+			}
+			if ObjOf(info, stripConv(val)) == keyObj && fname != "" {
+				keyAcc = map[string]bool{fname: true}
+			}
+		}
+		if keyAcc == nil {
+			return "the collected records do not carry the map key"
+		}
+	} else if valObj != nil && ObjOf(info, stripConv(elem)) == valObj {
+		// (C) elements are the map values: the map must have been filled as m[K(x)] = x in this function
+		mapText := types.ExprString(rs.X)
+		Inspect(fnBody, false, func(n ast.Node) bool {
+			as, ok := n.(*ast.AssignStmt)
+			if !ok || len(as.Lhs) != 1 || len(as.Rhs) != 1 {
+				return true
+			}
+			ix, ok := as.Lhs[0].(*ast.IndexExpr)
+			if !ok || types.ExprString(ix.X) != mapText {
+				return true
+			}
+			src := ObjOf(info, as.Rhs[0])
+			if src == nil {
+				return true
+			}
+			acc := accessors(info, ix.Index, func(e ast.Expr) bool { return ObjOf(info, e) == src })
+			if len(acc) > 0 {
+				keyAcc = acc
+			}
+			return true
+		})
+		if keyAcc == nil {
+			return "the map's key cannot be related to its values in this function"
+		}
+	} else {
+		return "the appended element is neither the key, a record carrying the key, nor the value"
+	}
+	// the comparison
+	var less ast.Node
+	switch sortFn.Name() {
+	case "Slice", "SliceStable":
+		if len(sortCall.Args) == 2 {
+			less = sortCall.Args[1]
+		}
+	case "Sort", "Stable":
+		// sort.Interface: find Less of the slice's named type
+		if nt := NamedOf(info.Types[sortCall.Args[0]].Type); nt != nil {
+			for i := 0; i < nt.NumMethods(); i++ {
+				if nt.Method(i).Name() == "Less" {
+					less = lessDecl[nt.Method(i)]
+				}
+			}
+		}
+	}
+	if less == nil {
+		return "the comparison function of the sort could not be found"
+	}
+	// elements in less are s[i] / s[j] (index expressions)
+	cmpAcc := map[string]bool{}
+	ast.Inspect(less, func(n ast.Node) bool {
+		be, ok := n.(*ast.BinaryExpr)
+		if !ok || (be.Op != token.LSS && be.Op != token.GTR) {
+			return true
+		}
+		for _, side := range []ast.Expr{be.X, be.Y} {
+			for a := range accessors(info, side, func(e ast.Expr) bool { _, ok := ast.Unparen(e).(*ast.IndexExpr); return ok }) {
+				cmpAcc[a] = true
+			}
+		}
+		return true
+	})
+	for a := range keyAcc {
+		if !cmpAcc[a] {
+			return "the sort compares " + setString(cmpAcc) + " while the map entries are distinguished by " + setString(keyAcc) + ": entries that tie keep map-iteration order"
+		}
+	}
+	for a := range cmpAcc {
+		if !keyAcc[a] {
+			return "the sort compares " + setString(cmpAcc) + " while the map entries are distinguished by " + setString(keyAcc) + ": entries that tie keep map-iteration order"
+		}
+	}
+	return ""
+}
+
+func setString(m map[string]bool) string {
+	var ks []string
+	for k := range m {
+		ks = append(ks, k)
+	}
+	sort.Strings(ks)
+	return "{" + strings.Join(ks, ",") + "}"
+}
+
+// lessDecl maps Less methods of sort.Interface implementations to their declarations (filled by RegisterDecls).
+var lessDecl = map[*types.Func]*ast.FuncDecl{}
+
+// RegisterDecls makes method declarations available to the ORDER rules.
+func RegisterDecls(info *types.Info, files []*ast.File) {
+	for _, f := range files {
+		for _, d := range f.Decls {
+			if fd, ok := d.(*ast.FuncDecl); ok && fd.Recv != nil && fd.Name.Name == "Less" {
+				if fo, ok := info.Defs[fd.Name].(*types.Func); ok {
+					lessDecl[fo] = fd
+				}
+			}
+		}
+	}
 }
